@@ -395,6 +395,9 @@ def handle_counterexample(prop, ob, name, r, findings, tier, seed, lines, rec):
     """Replay a candidate on the unmodified package. Returns (outcome, n_violations, harness_error)."""
     rec['counterexample'] = {'args': r.get('args'), 'kwargs': r.get('kwargs'), 'message': r.get('message', '')[:500]}
     replay = ob.get('replay')
+    if not replay and 'StubGap' in (r.get('message') or ''):
+        lines.append(f'INCONCLUSIVE property={prop} obligation={name}: stub gap ({(r.get("message") or "")[:200]})')
+        return 'inconclusive', 0, False
     if not replay:
         lines.append(f'HARNESS-ERROR property={prop} obligation={name}: counterexample without a replay function: '
                      f'{r.get("message", "")[:300]}')
